@@ -135,6 +135,16 @@ fn cases() -> Vec<Bad> {
                 c.and_ops = 0;
             }));
             v.push(with_circ("max_reg_count-zero", &|c| c.max_reg_count = 0));
+            // register 0 is the only one in use: max_reg_count - 1 saturates to 0 in Circuit::validate()
+            v.push(with_circ("max_reg_count-zero-only-register-0-used", &|c| {
+                c.max_reg_count = 0;
+                c.insts.truncate(1);
+                c.output_regs = vec![Reg(0)];
+                c.and_ops = 0;
+            }));
+            v.push(with_circ("max_reg_count-one-below-highest-register", &|c| {
+                c.max_reg_count -= 1;
+            }));
             if std::env::var("PV_C18_HUGE").is_ok() {
                 v.push(with_circ("max_reg_count-usize-max", &|c| c.max_reg_count = usize::MAX));
                 v.push(with_circ("input_regs-sum-overflows", &|c| { let k = c.input_regs.len(); c.input_regs[k - 1] = usize::MAX; }));
